@@ -33,8 +33,11 @@ public:
           m_function(lmsg.m_context.function),
           m_category(lmsg.m_context.category),
           m_type(lmsg.m_type),
-          m_context(m_file.constData(), lmsg.m_context.line, m_function.constData(),
-                    m_category.constData()),
+          // a null file, function or category stays null in the copy (Qt's own formatter prints
+          // "unknown" for a null pointer and nothing for an empty string)
+          m_context(lmsg.m_context.file ? m_file.constData() : nullptr, lmsg.m_context.line,
+                    lmsg.m_context.function ? m_function.constData() : nullptr,
+                    lmsg.m_context.category ? m_category.constData() : nullptr),
           m_message(lmsg.m_message),
           m_time(lmsg.m_time),
           m_steadyTime(lmsg.m_steadyTime),
